@@ -12,11 +12,25 @@ META = dict(
           "nodes, rescaled/perturbed times, polytomies) and on simplified msprime / forest-walk trees against a "
           "canonical-form -> rank table taken from the position in all_trees(k); (d) Tree.count_topologies and "
           "TreeSequence.count_topologies against brute-force enumeration of one sample per set on forest-walk and "
-          "msprime tree sequences with leaf samples x random disjoint sample-set families (k <= 4). A case is "
+          "msprime tree sequences with leaf samples x random disjoint sample-set families (k <= 4); (e) audit families "
+          "(lib/props/c15_ext.py): `life` = forests built from per-node state scripts (internal with set samples below / "
+          "childless leaf / absent / root) with a forced focus script in every case (W A+ D, W A+ W, W D W, root A+ root, "
+          "D A W), gaps, breakpoints that change nothing for the set samples, unsquashed edges, permuted ids, "
+          "delete_intervals / keep_intervals / decapitate output, default sets by population incl. empty populations, "
+          "each through two ways of reaching the trees, six spellings of sample_sets, ten of the counter key and four "
+          "ways of consuming the incremental generator; `bigcount` = >= 256 children / depth 300-600 / 120-250 trees / "
+          "40 x 40 sets / k = 5 by case index against a contraction + class-weight reference that is cross-checked with "
+          "the plain brute force; `rforms` = 13 spellings of Tree.unrank, generator keyword / numpy forms, the Rank "
+          "named tuple, rank() on trees reached in eleven ways, leaves renumbered order-preservingly with internal ids "
+          "below leaf ids; `big` mode wide = root with 255-400 children; non-existent node ids incl. negative aliases "
+          "of real samples must be refused by both count_topologies entry points. A case is "
           "distinct by (generator, parameters / sha1 of rows + sample sets) and non-trivial when it ranks at least "
           "one tree with >= 3 leaves or counts at least one combination of >= 2 sample sets."),
     REQUIRED=["unrank-rank-roundtrip", "all_trees-order", "labellings-per-shape", "out-of-range-probe",
-              "rank-invariance", "rank-vs-table", "count-topologies-bruteforce", "count-topologies-incremental"],
+              "rank-invariance", "rank-vs-table", "count-topologies-bruteforce", "count-topologies-incremental",
+              "count-topologies-bruteforce:life", "count-topologies-incremental:life", "count-topologies-tree-sources",
+              "topology-counter-key-forms", "count-topologies-rejects-invalid-id", "unrank-argument-forms",
+              "rank-result-type", "rank-invariance:spread-leaf-ids", "rank-tree-sources"],
     ASSUMPTIONS=ASSUME_COMMON + [
         "the canonical form (min-label-sorted nested tuples from the edge rows) identifies leaf-labelled topologies",
         "OEIS A000669/A000311 values for n <= 7 are the number of series-reduced shapes / leaf-labelled trees",
@@ -24,6 +38,10 @@ META = dict(
         "is linear in each child's shape rank and rank()/unrank() walk all partitions of n, so uniform ranks for "
         "larger n do not terminate in practice (n = 25: 770 s for one unrank); larger n use low shape ranks or "
         "topologies whose non-root subtrees have <= 12/13 leaves",
+        "reducing a tree to a superset of the chosen samples first (dropping sample-free branches, suppressing unary "
+        "nodes) and exchanging same-set sibling leaves do not change the embedded topology (bigcount reference; "
+        "cross-checked against the plain brute force on ~30 % of the life cases)",
+        "a combination of sample-set indexes is unordered: TopologyCounter[i, j] and [j, i] name the same counter",
     ],
     BUDGET={"quick": 50.0, "thorough": 840.0},
     CASE_TIMEOUT={"quick": 180, "thorough": 900},
